@@ -1034,6 +1034,7 @@ impl<W: Write> Ctx<W> {
     /// C06, linear time: the same token repeated to n, 2n, 4n, 8n bytes; minimum of three runs each.
     pub fn timing(&mut self, st: &Value) {
         let unit = st.get("unit").and_then(unbytes).unwrap_or_default();
+        let prefix = st.get("prefix").and_then(unbytes).unwrap_or_default();
         let parser = st.get("parser").and_then(|x| x.as_str()).unwrap_or("range").to_string();
         let n0 = st.get("n").and_then(|x| x.as_u64()).unwrap_or(16384) as usize;
         let mut sizes = Vec::new();
@@ -1050,7 +1051,7 @@ impl<W: Write> Ctx<W> {
                 }
                 t
             } else {
-                unit.repeat((target / unit.len().max(1)).max(1))
+                format!("{}{}", prefix, unit.repeat((target / unit.len().max(1)).max(1)))
             };
             let mut best = u64::MAX;
             for _rep in 0..3 {
@@ -1161,7 +1162,18 @@ impl<W: Write> Ctx<W> {
                                 }
                                 list.insert((k * 5) % (n + k), d);
                             }
-                            list.truncate(24);
+                            if n > 3 && (n * 31 + list.len()) % 5 == 0 {
+                                // the same version three or more times, and a longer list
+                                let d = list[n / 2].clone();
+                                for k in 0..3 {
+                                    list.insert((k * 11) % list.len(), d.clone());
+                                }
+                                let more: Vec<Value> = list.iter().rev().take(20).cloned().collect();
+                                list.extend(more);
+                                list.truncate(60);
+                            } else {
+                                list.truncate(24);
+                            }
                             self.step(&json!({"c":"maxsat","a":1,"list":list.clone()}));
                             list.reverse();
                             let cut = list.len() / 3;
